@@ -78,10 +78,16 @@ def make_data(rng, multi, fs=100.0, N=4000, seed_shift=0):
 
 
 def new_setup(D):
+    """(copies keep the memory layout of the records: the ill-conditioned steps downstream - pLSCF's normal equations - turn the different
+    summation order of another layout into visible differences, which is not what these scenarios are about)"""
     from pyoma2.setup import MultiSetup_PreGER, SingleSetup
+    if D.get("share"):
+        if D["kind"] == "single":
+            return SingleSetup(D["data"], D["fs"])
+        return MultiSetup_PreGER(D["fs"], [list(r) for r in D["ref_ind"]], list(D["datasets"]))
     if D["kind"] == "single":
-        return SingleSetup(D["data"].copy(), D["fs"])
-    return MultiSetup_PreGER(D["fs"], [list(r) for r in D["ref_ind"]], [d.copy() for d in D["datasets"]])
+        return SingleSetup(np.array(D["data"], copy=True, order="K"), D["fs"])
+    return MultiSetup_PreGER(D["fs"], [list(r) for r in D["ref_ind"]], [np.array(d, copy=True, order="K") for d in D["datasets"]])
 
 
 def algcls(name):
@@ -306,11 +312,11 @@ def readded_after_decimation(ctx, rng, cls, fields, tag):
         s.run_all()
     q = int(rng.choice([2, 3]))
     s.decimate_data(q=q)
-    Ddec = dict(D, fs=D["fs"] / q)
+    Ddec = dict(D, fs=D["fs"] / q, share=True)  # the reference setup reads the very arrays the decimation produced (same values, same layout)
     if multi:
-        Ddec["datasets"] = [np.asarray(d).copy() for d in s.datasets]
+        Ddec["datasets"] = list(s.datasets)
     else:
-        Ddec["data"] = np.asarray(s.data).copy()
+        Ddec["data"] = s.data
     fn_ok = [f for f in D["fn"] if f < 0.4 * Ddec["fs"]] or list(D["fn"][:1])
     m = mpe_args(cls, P1, np.array(fn_ok))
     # (1) an algorithm attached BEFORE the step keeps a consistent (data, fs) pair: the result is that of the old pair or of the new pair
